@@ -142,3 +142,21 @@ Definition remove_isolated (m : mesh) : mesh :=
             gone m1.
 (* everything create_lattice does after the inner-triangle pass *)
 Definition finish_lattice (m : mesh) : mesh := remove_isolated (clean_up m).
+
+(* ------------------------------------------------------------------ from the contours to the state the clean-up starts from
+   (Model/Skeleton.v: vertices interned by pixel, one cell per contour, mesh edges in creation order).  ownEdges of a vertex = the mesh edges
+   at it in creation order, ownCells = the cells through it in creation order, external = an end that belongs to one cell only. *)
+From Forsys Require Model.Skeleton.
+Definition enumZ {A} (l : list A) : list (Z * A) := combine (map Z.of_nat (seq 0 (length l))) l.
+Definition mesh_of_lattice (st : Skeleton.skstate) : mesh :=
+  let cells := Skeleton.sk_cells st in
+  let es := enumZ (Skeleton.edges_of_cells cells) in
+  let cs := enumZ cells in
+  let vs := map snd (Skeleton.sk_vertices st) in
+  mkM vs
+      (map (fun v => (v, map fst (filter (fun ke : Z * (Z * Z) => Z.eqb (fst (snd ke)) v || Z.eqb (snd (snd ke)) v) es))) vs)
+      (map (fun v => (v, map fst (filter (fun kc : Z * list Z => memZ v (snd kc)) cs))) vs)
+      (map (fun ke : Z * (Z * Z) => (fst ke, (fst (snd ke), snd (snd ke), Skeleton.is_external cells (snd ke)))) es)
+      cs.
+(* create_lattice from the kept contours, when the inner-triangle pass finds nothing to do *)
+Definition create_lattice_model (contours : list (list Skeleton.pix)) : mesh := finish_lattice (mesh_of_lattice (Skeleton.lattice contours)).
